@@ -2,6 +2,11 @@
 
 package verifrt
 
-import "math"
+import (
+	"math"
+	"regexp"
+)
 
 func float64frombits(b uint64) float64 { return math.Float64frombits(b) }
+
+func regexpMatch(pattern, s string) (bool, error) { return regexp.MatchString(pattern, s) }
